@@ -7,8 +7,9 @@
 (* One action per callback of the component, each atomic (the callbacks    *)
 (* run under _pilots_lock / _wait_lock):                                   *)
 (*   Submit(B)        work(tasks)              tasks with/without a pilot  *)
-(*   AddPilots(f)     control_cb add_pilots    f: pilot -> state in the doc*)
-(*   RemovePilots(P)  control_cb remove_pilots                             *)
+(*   AddPilots(f,r)   control_cb add_pilots    f: pilot -> state in the doc*)
+(*   RemovePilots(P,r) control_cb remove_pilots  (r: message in reverse    *)
+(*                    pilot order)                                          *)
 (*   PilotState(p,s)  _base_state_cb, pilot notification                   *)
 (*   TaskStates(B)    _base_state_cb, final task notifications (only those *)
 (*                    carry the full task dict, see Component.advance)     *)
@@ -35,6 +36,16 @@
 (*                              outside the policy's pid list, its early    *)
 (*                              bound tasks unforwarded                     *)
 (*                                                                         *)
+(*   DevHalfValidAborts         a command which names a pilot that is       *)
+(*                              already added (add) / not added (remove)    *)
+(*                              raises at that entry: the entries before it *)
+(*                              are half applied (role set, policy hook     *)
+(*                              never called), the ones after it ignored    *)
+(*                                                                         *)
+(* With HalfValid commands may name such pilots, in any position.  A pilot  *)
+(* named in a remove command counts as removed from that moment on, an      *)
+(* addable pilot named in an add command as added (ghost grole).            *)
+(*                                                                         *)
 (* add_pilots documents carry ANY state, older or newer than what the       *)
 (* notifications said (control and state messages travel on different       *)
 (* channels).  The ghosts grole / gst hold the role as commanded and the    *)
@@ -57,7 +68,9 @@ CONSTANTS Policy,          \* "RR" | "BF"
           DevEarlyNotCleared,
           DevBFRaiseSkipsBatch,
           DevAddForgetsState,
-          DevContradictionRaises
+          DevContradictionRaises,
+          DevHalfValidAborts,
+          HalfValid        \* commands may name pilots they cannot be applied to
 
 VARIABLES cs,              \* the code's bookkeeping (see TmgrOps)
           tst,             \* "new" | "sub" (at the scheduler) | "fwd" | "fin" (final notified)
@@ -75,10 +88,13 @@ Tasks  == SeqSet(TaskSeq)
 Pilots == SeqSet(PilotSeq)
 K == [policy |-> Policy, named |-> Named, cores |-> Cores, hwm |-> Hwm, lo |-> BFLo, hi |-> BFHi,
       devEarly |-> DevEarlyNotCleared, devRaise |-> DevBFRaiseSkipsBatch,
-      devAddFresh |-> DevAddForgetsState, devCtrRaise |-> DevContradictionRaises]
+      devAddFresh |-> DevAddForgetsState, devCtrRaise |-> DevContradictionRaises,
+      devHalfValid |-> DevHalfValidAborts]
 
 TSeqOf(B) == SelectSeq(TaskSeq,  LAMBDA t : t \in B)
 PSeqOf(P) == SelectSeq(PilotSeq, LAMBDA p : p \in P)
+Reverse(s) == [i \in 1 .. Len(s) |-> s[Len(s) + 1 - i]]
+PSeqOfR(P, rev) == IF rev THEN Reverse(PSeqOf(P)) ELSE PSeqOf(P)
 
 Init ==
   /\ cs = [role  |-> [p \in Pilots |-> "none"],
@@ -121,23 +137,29 @@ Submit(B) ==
   /\ Apply(StepSubmit(K, cs, TSeqOf(B)),
            [t \in Tasks |-> IF t \in B THEN "sub" ELSE tst[t]], gset, grole, gst)
 
-\* the task manager never adds a pilot twice, a removed pilot may be added again
-AddPilots(f) ==
+\* the task manager facade never adds a pilot twice and removes only added pilots
+\* (HalfValid = FALSE); at the scheduler's own interface a command may name any pilot
+AddPilots(f, rev) ==
   LET P   == DOMAIN f
-      Ps  == PSeqOf(P)
+      Ps  == PSeqOfR(P, rev)
       add == [i \in 1 .. Len(Ps) |-> <<Ps[i], f[Ps[i]]>>]
+      V   == {p \in P : grole[p] # "added"}          \* entries which can be applied
   IN
   /\ P # {} /\ Cardinality(P) <= MaxPBatch
-  /\ \A p \in P : grole[p] # "added"
-  /\ Apply(StepAdd(K, cs, add), tst, [p \in Pilots |-> IF p \in P THEN {} ELSE gset[p]],
-           [p \in Pilots |-> IF p \in P THEN "added" ELSE grole[p]],
-           [p \in Pilots |-> IF p \in P THEN Furthest(gst[p], f[p]) ELSE gst[p]])
+  /\ rev => Cardinality(P) > 1
+  /\ (rev \/ V # P) => HalfValid
+  /\ Apply(StepAdd(K, cs, add), tst, [p \in Pilots |-> IF p \in V THEN {} ELSE gset[p]],
+           [p \in Pilots |-> IF p \in V THEN "added" ELSE grole[p]],
+           [p \in Pilots |-> IF p \in V THEN Furthest(gst[p], f[p]) ELSE gst[p]])
 
-RemovePilots(P) ==
+RemovePilots(P, rev) ==
+  LET V == {p \in P : grole[p] = "added"}
+  IN
   /\ P # {} /\ Cardinality(P) <= MaxPBatch
-  /\ \A p \in P : grole[p] = "added"
-  /\ Apply(StepRemove(K, cs, PSeqOf(P)), tst, gset,
-           [p \in Pilots |-> IF p \in P THEN "removed" ELSE grole[p]], gst)
+  /\ rev => Cardinality(P) > 1
+  /\ (rev \/ V # P) => HalfValid
+  /\ Apply(StepRemove(K, cs, PSeqOfR(P, rev)), tst, gset,
+           [p \in Pilots |-> IF p \in V THEN "removed" ELSE grole[p]], gst)
 
 PilotState(p, s) ==
   /\ Apply(StepPState(K, cs, p, s), tst, gset, grole, [gst EXCEPT ![p] = Furthest(@, s)])
@@ -152,8 +174,8 @@ TaskStates(B) ==
 
 Next ==
   \/ \E B \in SUBSET Tasks : Submit(B)
-  \/ \E P \in SUBSET Pilots : \E f \in [P -> AddStates] : AddPilots(f)
-  \/ \E P \in SUBSET Pilots : RemovePilots(P)
+  \/ \E P \in SUBSET Pilots : \E f \in [P -> AddStates], rev \in BOOLEAN : AddPilots(f, rev)
+  \/ \E P \in SUBSET Pilots, rev \in BOOLEAN : RemovePilots(P, rev)
   \/ \E p \in Pilots, s \in NotifStates : PilotState(p, s)
   \/ \E B \in SUBSET Tasks : TaskStates(B)
 
